@@ -28,7 +28,10 @@ Oracle:
 Guards: notifyFinish() is never called on a request that already finished or whose connection is
 gone (such a Deferred never fires; outside the statement); requests are syntactically valid
 (parsing is C18/C19's business); after the server itself calls loseConnection() the harness
-delivers nothing more and completes the close at the next step, like TCP.
+delivers nothing more and completes the close at the next step, like TCP — except in 30 % of the
+schedules, which run on a transport that calls connectionLost re-entrantly from inside the server's
+loseConnection() (StringTransportWithDisconnection / FileDescriptor with a closed write side do that);
+the oracle is the same: the response had finished first, so its notifications fire with None.
 """
 from vf.engines import netsim, refhttp
 from vf.engines.logcap import LogCapture
@@ -48,7 +51,7 @@ ASSUMPTIONS = ["trusted base: netsim.SimTransport (write after loss is dropped; 
 SHARDS = {"quick": 4, "thorough": 16}
 FLOORS = {"runs": 5000, "process_events": 5000, "notify_fired_ok": 2000, "notify_fired_fail": 2000, "loss_while_in_progress": 1000,
           "responses_on_wire_checked": 3000, "pipelined_handover_inside_finish": 300, "pause_ops": 500, "finish_after_loss_raised": 100,
-          "process_after_stray_blank_line": 500}
+          "process_after_stray_blank_line": 500, "losses_inside_loseconnection": 100}
 READY = True
 
 
@@ -88,7 +91,7 @@ def gen_schedule(rng):
         version = b"HTTP/1.1"
         lines = [b"Host: h"]
         payload = b""
-        closing = rng.random() < 0.08
+        closing = rng.random() < 0.15
         if closing and rng.random() < 0.4:
             version = b"HTTP/1.0"
         elif closing:
@@ -129,13 +132,20 @@ def gen_schedule(rng):
 class World:
     """One run: a schedule, plans and a loss point."""
 
-    def __init__(self, ctx, reqs, ops, plans, loss_at):
+    def __init__(self, ctx, reqs, ops, plans, loss_at, sync_close=False):
         self.ctx, self.reqs, self.ops, self.plans, self.loss_at = ctx, reqs, ops, plans, loss_at
+        self.sync_close = sync_close
         self.log = []
         self.apps = []  # per processed request
         self.problems = []
         self.lost = False
-        self.server = c18.Server("channel", responder=self.on_process, defer=False)
+        self.server = c18.Server("channel", responder=self.on_process, defer=False, sync_close=sync_close)
+        if sync_close:  # the server's own loseConnection() reports the loss re-entrantly, through our bookkeeping
+            self.server.transport.on_sync_close = self._sync_close
+
+    def _sync_close(self):
+        self.ctx.count("losses_inside_loseconnection")
+        self.lose(clean=True)
 
     def bad(self, key, what, **detail):
         self.problems.append((key, what, detail))
@@ -368,9 +378,9 @@ class World:
         self.ctx.count("bytes_on_wire", len(out))
 
 
-def run_one(ctx, reqs, ops, plans, loss_at, cap, case_index=None):
+def run_one(ctx, reqs, ops, plans, loss_at, cap, case_index=None, sync_close=False):
     mark = len(cap.events)
-    w = World(ctx, reqs, ops, plans, loss_at)
+    w = World(ctx, reqs, ops, plans, loss_at, sync_close)
     try:
         w.run()
     finally:
@@ -382,9 +392,9 @@ def run_one(ctx, reqs, ops, plans, loss_at, cap, case_index=None):
     ctx.evaluated()
     ctx.count("runs")
     if w.apps:
-        ctx.distinct((tuple(op if op[0] != "data" else op[1] for op in ops), tuple(repr(p.as_dict()) for p in plans), loss_at))
+        ctx.distinct((tuple(op if op[0] != "data" else op[1] for op in ops), tuple(repr(p.as_dict()) for p in plans), loss_at, sync_close))
     for key, what, detail in w.problems[:1]:
-        ctx.violation(key, what, dict(detail, case_index=case_index, loss_at=loss_at, ops=ops, plans=[p.as_dict() for p in plans], log=w.log[-60:],
+        ctx.violation(key, what, dict(detail, case_index=case_index, loss_at=loss_at, sync_close=sync_close, ops=ops, plans=[p.as_dict() for p in plans], log=w.log[-60:],
                                       wire=bytes(w.server.transport.written)[:600], all_problem_keys=sorted(set(p[0] for p in w.problems))))
     return w
 
@@ -399,9 +409,12 @@ def run_schedule(ctx, i, only_loss_at=None):
         boundaries = sorted(set(rng.sample(range(len(ops) + 1), 45)) | {len(ops)})
     if only_loss_at is not None:
         boundaries = [only_loss_at]
+    sync_close = ctx.case_rng(i, "sync-close").random() < 0.3
+    if sync_close:
+        ctx.count("schedules_on_sync_close_transport")
     with LogCapture() as cap:
         for b in boundaries:
-            w = run_one(ctx, reqs, ops, plans, b, cap, i)
+            w = run_one(ctx, reqs, ops, plans, b, cap, i, sync_close)
             if w.problems:
                 break
         mark = len(cap.events)
